@@ -5,9 +5,12 @@ import (
 	"time"
 
 	sdk "github.com/cosmos/cosmos-sdk/types"
+	authtypes "github.com/cosmos/cosmos-sdk/x/auth/types"
+	govtypes "github.com/cosmos/cosmos-sdk/x/gov/types"
 	stakingtypes "github.com/cosmos/cosmos-sdk/x/staking/types"
 	dualstakingtypes "github.com/lavanet/lava/v5/x/dualstaking/types"
 	pairingtypes "github.com/lavanet/lava/v5/x/pairing/types"
+	rewardstypes "github.com/lavanet/lava/v5/x/rewards/types"
 	subscriptiontypes "github.com/lavanet/lava/v5/x/subscription/types"
 
 	"pgregory.net/rapid"
@@ -186,6 +189,61 @@ func c37SlashedVault(rt *rapid.T, w *chain.World) {
 			}
 		}
 		if !w.C.AdvanceEpoch() {
+			return
+		}
+	}
+}
+
+// iprpcMonth is a directed preamble with drawn parameters: every consumer is made IPRPC-eligible,
+// every spec gets an IPRPC fund (mostly for a single month), providers are paid relays on every
+// spec, and the month ends (IPRPC distribution over several funded and served specs in one month).
+func iprpcMonth(rt *rapid.T, w *chain.World) {
+	ts := w.C.TS
+	var subs []string
+	for _, c := range w.Consumers {
+		subs = append(subs, c.Addr())
+	}
+	authority := authtypes.NewModuleAddress(govtypes.ModuleName).String()
+	cost := int64(rapid.SampledFrom([]int{0, 100}).Draw(rt, "im_minCost"))
+	dmsg := &rewardstypes.MsgSetIprpcData{Authority: authority, MinIprpcCost: sdk.NewCoin(w.C.Denom(), sdk.NewInt(cost)), IprpcSubscriptions: subs}
+	_ = w.C.Tx(fmt.Sprintf("iprpcSetData*(cost=%d,subs=%d)", cost, len(subs)), dmsg.ValidateBasic, func() error {
+		_, err := ts.Servers.RewardsServer.SetIprpcData(ts.GoCtx, dmsg)
+		return err
+	})
+	for i, s := range w.Specs {
+		funder := w.Consumers[rapid.IntRange(0, len(w.Consumers)-1).Draw(rt, fmt.Sprintf("im_funder%d", i))]
+		duration := uint64(rapid.SampledFrom([]int{1, 1, 1, 2}).Draw(rt, fmt.Sprintf("im_duration%d", i)))
+		amount := int64(rapid.SampledFrom([]int{5000, 1_000_000, 5_000_000_000_000}).Draw(rt, fmt.Sprintf("im_fund%d", i)))
+		fmsg := &rewardstypes.MsgFundIprpc{Creator: funder.Addr(), Spec: s.Index, Duration: duration, Amounts: sdk.NewCoins(sdk.NewCoin(w.C.Denom(), sdk.NewInt(amount)))}
+		_ = w.C.Tx(fmt.Sprintf("iprpcFund*(%s,%s,%dm,%d)", funder.Name, s.Index, duration, amount), fmsg.ValidateBasic, func() error {
+			_, err := ts.Servers.RewardsServer.FundIprpc(ts.GoCtx, fmsg)
+			return err
+		})
+	}
+	month := func() bool {
+		w.C.Logf("advanceMonth*(31d)")
+		for i := 0; i < 31; i++ {
+			if !w.C.AdvanceBlock(24 * time.Hour) {
+				return false
+			}
+		}
+		return w.C.AdvanceEpoch()
+	}
+	// the fund becomes the current month's fund at the next month boundary; then it is served
+	if !month() {
+		return
+	}
+	relay := w.ActRelayPayment(chain.RelayOpts{SessionPool: 0})
+	for e := 0; e < 2; e++ {
+		for j := 0; j < 6; j++ {
+			relay(rt)
+		}
+		if !w.C.AdvanceEpoch() {
+			return
+		}
+	}
+	for m := 0; m < 2; m++ {
+		if !month() {
 			return
 		}
 	}
